@@ -153,6 +153,7 @@ def prepare(case, ids_by_case, tier):
     lines.append(("apply", sx(["apply", frames, pre, mid, post, v, kind, nm])))
     if case.real["verdict"] == "ok":
         case.real["after"] = sx(G.abs_sched(routine, ids))
+        case.real["auto_flags"] = [n.region_name is None for n in routine.walk(PSyDataNode)]
         names = []
         low, text = lowered(psyir, routine.name, tier == "thorough")
         case.real["lowered"] = sx(G.abs_sched(low, ids, names))
@@ -218,8 +219,8 @@ def judge(chk, case, out, ids, gf, stats):
             if gf is not None and real["fortran"] and detailed:
                 viol["gfortran"] = list(gf.run(real["fortran"]))
         else:
-            auto = [tuple(n) for n, rn in zip(real["names"], parse_sx(out["lower"])[1] if agreed else [])
-                    if rn[0] == "a"]
+            flags = real["auto_flags"] if len(real["auto_flags"]) == len(real["names"]) else [True] * len(real["names"])
+            auto = [tuple(n) for n, is_auto in zip(real["names"], flags) if is_auto]
             if len(set(auto)) != len(auto):
                 viol = dict(case.payload(), kind="failing-input", observed={"names": real["names"]},
                             expected="regions without user-supplied name get pairwise distinct names")
@@ -261,7 +262,7 @@ def cases_of_program(chk, src, origin, budget2):
             if rng.random() < 0.08:
                 name = rng.choice([["mymod", "myreg"], ["mymod", "other"], ["work", "r0"]])
             first.append([t, path, i, j, name])
-    cap = 400 if chk.tier == "thorough" else 130
+    cap = 300 if chk.tier == "thorough" else 130
     if len(first) > cap:
         rng.shuffle(first)
         del first[cap:]
@@ -450,7 +451,7 @@ def run(chk):
     if chk.tier == "thorough":
         try:
             gf = G.Gfortran()
-            stats["gf_budget"] = 500
+            stats["gf_budget"] = 400
         except Exception as err:  # pylint: disable=broad-except
             raise common.Infra(str(err))
     try:
@@ -465,7 +466,7 @@ def run(chk):
 
 
 def _run(chk, stats, gf):
-    nprog = 60 if chk.tier == "thorough" else 9
+    nprog = 30 if chk.tier == "thorough" else 9
     cases = list(corpus_cases())
     feats = {}
     for p in range(nprog):
@@ -549,8 +550,8 @@ def replay_witness(payload, quiet=False):
             except Exception as err:  # pylint: disable=broad-except
                 say("gfortran confirmation unavailable:", err)
     names = [tuple(n) for n in case.real["names"]]
-    ml = parse_sx(out["lower"])
-    auto = [n for n, rn in zip(names, ml[1]) if rn[0] == "a"] if len(ml[1]) == len(names) else names
+    flags = case.real["auto_flags"] if len(case.real["auto_flags"]) == len(names) else [True] * len(names)
+    auto = [n for n, is_auto in zip(names, flags) if is_auto]
     if len(set(auto)) != len(auto):
         say("observed: duplicate generated region names", names)
         bad = True
